@@ -3,7 +3,7 @@
 
   * `Sql`      : typed SQL expression AST for the node kinds `SQLBuilder.STRING_SLICE` and
                  `StringMixin.__getitem__` emit, `enc` = its encoding as the nested Python lists Pony uses,
-                 `dec` = decoder of such lists (used by the driver to evaluate the AST Pony REALLY emitted).
+                 `dec` = decoder of such lists (used by the driver to evaluate the AST Pony REALLY emitted; proved inverse to `enc`).
   * `eval`     : evaluator with SQL NULL, three-valued conditions, and `substr` per dialect as documented
                  (PostgreSQL / MySQL / Oracle) or as implemented (SQLite func.c `substrFunc`, validated against the
                  real sqlite3 on every run); SQLite slices go through the UDF `py_string_slice` (`Sql.slice`).
@@ -91,9 +91,10 @@ def enc : Sql → PyVal
 
 end Sql
 
-/-- decoder of the list form (total on the node kinds above; anything else is `none`).  The engine renames
-    `['COLUMN', alias, name]` / `['PARAM', key, …]` to the two-element opaque form before sending. -/
-partial def dec : PyVal → Option Sql
+/-- decoder of the list form (total; anything outside the node kinds above is `none`).  The engine renames
+    `['COLUMN', alias, name]` / `['PARAM', key, …]` to the two-element opaque form before sending.
+    `dec_sound` / `dec_enc` (Lemmas/SqlStr.lean): `dec v = some t ↔ t.enc = v`. -/
+def dec : PyVal → Option Sql
   | .list [.str "VALUE", .int i] => some (.value i)
   | .list [.str "VALUE", .str s] => some (.strLit s)
   | .list [.str "VALUE", .none] => some .null
@@ -111,10 +112,10 @@ partial def dec : PyVal → Option Sql
   | .list [.str "LT", a, b] => do some (.lt (← dec a) (← dec b))
   | .list [.str "COALESCE", a, b] => do some (.coalesce (← dec a) (← dec b))
   | .list [.str "SUBSTR", e, p, .none] => do some (.substr2 (← dec e) (← dec p))
-  | .list [.str "SUBSTR", e, p] => do some (.substr2 (← dec e) (← dec p))
   | .list [.str "SUBSTR", e, p, l] => do some (.substr3 (← dec e) (← dec p) (← dec l))
   | .list [.str "PY_STRING_SLICE", e, a, b] => do some (.slice (← dec e) (← dec a) (← dec b))
   | _ => none
+
 
 /-! ### Python side: slices and indexes of a `List Char` -/
 
